@@ -75,10 +75,10 @@ CHECKS = {
                 text='Weak fit, stated: the cubature code has no input besides the rule name, so it is executed completely for every advertised name (incl. refine/auto-degree prefixes, aliases); the symbolic part is the integrand: z3 decides in exact rational arithmetic that no polynomial of total degree <= nominal degree (coefficients in [-1,1]) has an integration error above 1e-11*sum|w|; unknown/out-of-range names must be refused.',
                 note='Trusted: g++ build of the real headers, exact monomial moments, nominal degree table (from driver docs / property text), z3 5.1.0. Rules whose (points x monomials) cost exceeds the tier bound are not decided (count reported). Four table defects were found and repaired by fix: commits.',
                 ref='3/C14'),
-    'C15': dict(cat='other', engine='E2',
-                technique='bounded symbolic execution of the real element / trafo evaluators on one cell with symbolic vertices and evaluation point; identities incl. symbolic differentiation of the returned value terms decided by z3',
-                text='Partial (stated): one cell per shape (tria, quad, tetra, hexa; general and affine geometry), elements Lagrange1/2, Discontinuous P1, CroRav/RanTur, Bernstein2: partition of unity, J = dx/dxi, hess_ten = dJ/dxi, J*Jinv = I, J^T grad = d value/d xi, second-order chain rule for Hessians, simplex jac_det, and reproduction of symbolic local polynomials by the real interpolator (node functionals + dof mapping).',
-                note='Trusted: SymReal, DAG differentiation in the driver, z3 5.1.0. Claims hold under recorded path conditions (pivoting) and positive orientation. Some second-order obligations on non-affine cells are inconclusive in the quick tier (listed). Outside: Lagrange3 (constexpr DataType), Hermite3/Argyris/BFS/..., orientation of shared multi-DOF faces across cells, DOF numbering, inverse mapping, continuity on meshes.',
+    'C15': dict(cat='other', engine='E2+E3',
+                technique='bounded symbolic execution of the real element / trafo evaluators on one cell with symbolic vertices and evaluation point; identities incl. symbolic differentiation of the returned value terms decided by z3; plus own IR symbolic executor on the real DofMapping + Lagrange2/3 evaluators on two cells with symbolic numbering (solver-guided forking over all admissible orientations), continuity oracle on the shared facet',
+                text='Partial (stated): one cell per shape (tria, quad, tetra, hexa; general and affine geometry), elements Lagrange1/2, Discontinuous P1, CroRav/RanTur, Bernstein2: partition of unity, J = dx/dxi, hess_ten = dJ/dxi, J*Jinv = I, J^T grad = d value/d xi, second-order chain rule for Hessians, simplex jac_det, and reproduction of symbolic local polynomials by the real interpolator (node functionals + dof mapping). E3 part: for Lagrange2 and Lagrange3 on two cells of every shape sharing a facet, with the second cell / the shared facet / its edges numbered in any admissible way, every global basis function has the same value on the facet seen from either cell and outside dofs vanish there (evaluators in IEEE double at 3 asymmetric points, tolerance 1e-11).',
+                note='Trusted: SymReal, DAG differentiation in the driver, z3 5.1.0, clang-14 IR + irsym executor (validated against an ASan native build). E2 claims hold under recorded path conditions (pivoting) and positive orientation. Some second-order obligations on non-affine cells are inconclusive in the quick tier (listed). Outside: pointwise identities of Lagrange3 (constexpr DataType), Hermite3/Argyris/BFS/..., inverse mapping, continuity beyond 3 sample points and on non-affine cells.',
                 ref='3/C15'),
     'C16': dict(cat='other', engine='E2',
                 technique='bounded symbolic execution of the real assemblers (classic and DomainAssembler job route) on one cell with symbolic vertex coordinates; entry-wise identities and an independent closed-form Lagrange1 oracle decided by z3',
